@@ -28,6 +28,12 @@ run_one() {
       conf=$(grep -l 'VIOLATION-CONFIRMED' "$o"/replays/$p/*.json 2>/dev/null | wc -l)
       if [ $rc = 1 ] && [ "$nv" -gt 0 ]; then st=DETECTED; else st="MISSED(exit=$rc)"; fi
       echo -e "$name\t$p\t$st\t$nv violation(s), $conf replayed on the real code\t$obl"
+      if [ -n "${SELFTEST_KEEP:-}" ]; then mkdir -p "$SELFTEST_KEEP"; python3 - "$o/replays/$p" > "$SELFTEST_KEEP/$name.$p.txt" 2>/dev/null <<'PY'
+import json,glob,sys
+for f in sorted(glob.glob(sys.argv[1]+'/*.json')):
+    d=json.load(open(f)); print(d.get('obligation'),'|',d.get('status'),'|',d.get('solvers'),'|',str(d.get('concretise_error'))[:160])
+PY
+      fi
     done
   fi
   git -C /repo worktree remove --force "$w/r" >/dev/null 2>&1; rm -rf "$w" "$o"
